@@ -56,25 +56,34 @@ Definition t_clear (v : ta) : ta := t_empty.
 Definition t_select (ct cf : bool) (v : ta) : ta := {| rules := if ct then rules v else []; finals := if cf then finals v else [] |}.
 Definition t_union_disjoint (a b : ta) : ta := {| rules := rules a ++ rules b; finals := finals a ++ finals b |}.
 
-(* ---------- word automata as values: start states carry the symbols of their start transitions ---------- *)
-Record wval := { wstarts : list (N * N); wfinals : list N; wedges : list (N * N * N) }.
-Definition w_empty : wval := {| wstarts := []; wfinals := []; wedges := [] |}.
-Definition w_add (e : N * N * N) (v : wval) : wval := {| wstarts := wstarts v; wfinals := wfinals v; wedges := wedges v ++ [e] |}.
-Definition w_setfinal (q : N) (v : wval) : wval := {| wstarts := wstarts v; wfinals := wfinals v ++ [q]; wedges := wedges v |}.
-Definition w_setstart (s a : N) (v : wval) : wval := {| wstarts := wstarts v ++ [(s, a)]; wfinals := wfinals v; wedges := wedges v |}.
+(* ---------- word automata as values ----------
+   wstartset = startStates_, wsyms = the whole startStateToSymbols_ map as pairs (state, symbol) — entries of states that
+   are not start states are readable through GetStartSymbols and are part of the value; wvisible drops them *)
+Record wval := { wstartset : list N; wsyms : list (N * N); wfinals : list N; wedges : list (N * N * N) }.
+Definition w_empty : wval := {| wstartset := []; wsyms := []; wfinals := []; wedges := [] |}.
+Definition w_add (e : N * N * N) (v : wval) : wval :=
+  {| wstartset := wstartset v; wsyms := wsyms v; wfinals := wfinals v; wedges := wedges v ++ [e] |}.
+Definition w_setfinal (q : N) (v : wval) : wval :=
+  {| wstartset := wstartset v; wsyms := wsyms v; wfinals := wfinals v ++ [q]; wedges := wedges v |}.
+Definition w_setstart (s a : N) (v : wval) : wval :=
+  {| wstartset := wstartset v ++ [s]; wsyms := wsyms v ++ [(s, a)]; wfinals := wfinals v; wedges := wedges v |}.
+Definition wvisible (v : wval) : wval :=
+  {| wstartset := wstartset v; wsyms := filter (fun p => memN (fst p) (wstartset v)) (wsyms v); wfinals := wfinals v; wedges := wedges v |}.
+(* ReindexStates copies the symbol sets of the start states only *)
 Definition wimage (h : N -> N) (v : wval) : wval :=
-  {| wstarts := map (fun p => (h (fst p), snd p)) (wstarts v); wfinals := map h (wfinals v);
+  {| wstartset := map h (wstartset v); wsyms := map (fun p => (h (fst p), snd p)) (wsyms (wvisible v)); wfinals := map h (wfinals v);
      wedges := map (fun e => (h (fst (fst e)), snd (fst e), h (snd e))) (wedges v) |}.
 Definition wapp (a b : wval) : wval :=
-  {| wstarts := wstarts a ++ wstarts b; wfinals := wfinals a ++ wfinals b; wedges := wedges a ++ wedges b |}.
+  {| wstartset := wstartset a ++ wstartset b; wsyms := wsyms a ++ wsyms b; wfinals := wfinals a ++ wfinals b; wedges := wedges a ++ wedges b |}.
 Definition wstates (v : wval) : list N :=
-  map fst (wstarts v) ++ wfinals v ++ flat_map (fun e => [fst (fst e); snd e]) (wedges v).
+  wstartset v ++ map fst (wsyms v) ++ wfinals v ++ flat_map (fun e => [fst (fst e); snd e]) (wedges v).
 
 Definition pair_eqb (p q : N * N) : bool := N.eqb (fst p) (fst q) && N.eqb (snd p) (snd q).
 Definition edge_eqb (e f : N * N * N) : bool := pair_eqb (fst e) (fst f) && N.eqb (snd e) (snd f).
 Definition sub_by {X} (eqb : X -> X -> bool) (l m : list X) : bool := forallb (fun x => existsb (eqb x) m) l.
 Definition wval_eq (a b : wval) : bool :=
-  sub_by pair_eqb (wstarts a) (wstarts b) && sub_by pair_eqb (wstarts b) (wstarts a) &&
+  set_eqN (wstartset a) (wstartset b) &&
+  sub_by pair_eqb (wsyms a) (wsyms b) && sub_by pair_eqb (wsyms b) (wsyms a) &&
   set_eqN (wfinals a) (wfinals b) &&
   sub_by edge_eqb (wedges a) (wedges b) && sub_by edge_eqb (wedges b) (wedges a).
 
@@ -82,6 +91,8 @@ Definition wval_eq (a b : wval) : bool :=
 (* a handle read through libvata shows exactly the model's value *)
 Definition t_obs_eq (model observed : ta) : bool := ta_set_eq model observed.
 Definition w_obs_eq (model observed : wval) : bool := wval_eq model observed.
+(* re-runs on operands rebuilt through the public interface: compared on the visible part *)
+Definition w_vis_eq (a b : wval) : bool := wval_eq (wvisible a) (wvisible b).
 (* Union: the result is the union of the images under the two reported maps *)
 Definition t_union_gate (mA mB : amap) (A B R : ta) : bool :=
   ta_set_eq R (Lang.union_with (app_map mA 0) (app_map mB 0) A B) &&
@@ -89,5 +100,5 @@ Definition t_union_gate (mA mB : amap) (A B R : ta) : bool :=
 Definition t_image_gate (h : N -> N) (A R : ta) : bool := ta_set_eq R (Lang.image h A).
 Definition w_union_gate (mA mB : amap) (A B R : wval) : bool :=
   wval_eq R (wapp (wimage (app_map mA 0) A) (wimage (app_map mB 0) B)) &&
-  total_on mA (wstates A) && total_on mB (wstates B).
-Definition w_image_gate (m : amap) (A R : wval) : bool := wval_eq R (wimage (app_map m 0) A) && total_on m (wstates A).
+  total_on mA (wstates (wvisible A)) && total_on mB (wstates (wvisible B)).
+Definition w_image_gate (m : amap) (A R : wval) : bool := wval_eq R (wimage (app_map m 0) A) && total_on m (wstates (wvisible A)).
